@@ -486,6 +486,17 @@ func poolFullInit(c *Ctx, r *Report, rule string) {
 					continue
 				}
 				n++
+				// names for the same object: `y := x` after the Get (an acquire helper expanded in place leaves one)
+				alias := map[types.Object]bool{x: true}
+				for _, later := range fl.Body.List[idx+1:] {
+					if a2, ok := later.(*ast.AssignStmt); ok && a2.Tok == token.DEFINE && len(a2.Lhs) == 1 && len(a2.Rhs) == 1 {
+						if ro := identObj(info, a2.Rhs[0]); ro != nil && alias[ro] {
+							if lo := identObj(info, a2.Lhs[0]); lo != nil {
+								alias[lo] = true
+							}
+						}
+					}
+				}
 				type cover struct {
 					whole bool
 					elems map[int64]bool
@@ -497,13 +508,16 @@ func poolFullInit(c *Ctx, r *Report, rule string) {
 					if !ok {
 						return
 					}
+					isRecv := func(o types.Object) bool {
+						return o != nil && (o == recv || (recv == x && alias[o]))
+					}
 					for _, l := range a.Lhs {
 						l = ast.Unparen(l)
-						if se, isStar := l.(*ast.StarExpr); isStar && identObj(inf, se.X) == recv {
+						if se, isStar := l.(*ast.StarExpr); isStar && isRecv(identObj(inf, se.X)) {
 							all = true
 							continue
 						}
-						if sel, isSel := l.(*ast.SelectorExpr); isSel && identObj(inf, sel.X) == recv {
+						if sel, isSel := l.(*ast.SelectorExpr); isSel && isRecv(identObj(inf, sel.X)) {
 							if fv := fieldVar(inf, sel); fv != nil {
 								if assigned[fv] == nil {
 									assigned[fv] = &cover{elems: map[int64]bool{}}
@@ -513,7 +527,7 @@ func poolFullInit(c *Ctx, r *Report, rule string) {
 							continue
 						}
 						if ix, isIx := l.(*ast.IndexExpr); isIx {
-							if sel, isSel := ast.Unparen(ix.X).(*ast.SelectorExpr); isSel && identObj(inf, sel.X) == recv {
+							if sel, isSel := ast.Unparen(ix.X).(*ast.SelectorExpr); isSel && isRecv(identObj(inf, sel.X)) {
 								if fv := fieldVar(inf, sel); fv != nil {
 									if k, isK := constInt(inf, ix.Index); isK {
 										if assigned[fv] == nil {
@@ -542,14 +556,14 @@ func poolFullInit(c *Ctx, r *Report, rule string) {
 						if isPoolCall(info, call, "Return") {
 							return true
 						}
-						if sel, isSel := call.Fun.(*ast.SelectorExpr); isSel && identObj(info, sel.X) == x {
+						if sel, isSel := call.Fun.(*ast.SelectorExpr); isSel && alias[identObj(info, sel.X)] {
 							if m := calleeFunc(info, call); m != nil {
 								uses = append(uses, use{call.Pos(), m.Origin(), exprStr(call.Fun)})
 							}
 							return true
 						}
 						for _, a := range call.Args {
-							if identObj(info, a) == x {
+							if alias[identObj(info, a)] {
 								uses = append(uses, use{call.Pos(), nil, exprStr(call.Fun)})
 							}
 						}
